@@ -298,6 +298,7 @@ func (m *MonC18) AtBoundary(o *BlockOutcome) {
 		rep.Violate("C18", "C18.lock-step", o.Idx, "export/import at height %d, continuation step %d %s: %s", s.Height, i, cont[i], what)
 		return
 	}
+	rep.Sample(map[string]any{"observed": "export/import boundary", "height": s.Height, "pending_unbonding_buckets": len(s.Unb), "pending_redelegation_records": len(s.Redels), "weight_snapshots": len(s.Weights), "export_bytes": len(bz), "continuation": cont})
 	rep.Class("C18.continuation-equal")
 }
 
